@@ -10,6 +10,8 @@ reception id/receiver <-> SensorMetadata.serial); every acceptance decision is T
 import concurrent.futures as cf
 import json
 import os
+import random
+import subprocess
 import time
 from .. import core
 
@@ -117,6 +119,11 @@ def events_of(sc, reply):
     hex2idx = {frame_hex(f): f for (f, _, _) in sc["arr"]}
     ts2tick = {ts_of(sc["epoch"], t): t for (_, t, _) in sc["arr"]}
     evs = [{"e": "reset", "w": sc["w"]}]
+    if sc.get("tool") == "decode1090":      # one run of the tool over the whole history
+        evs.append({"e": "file", "panic": reply is None or bool(reply.get("panic")),
+                    "arr": [{"id": i + 1, "f": f, "t": t, "rx": rx} for i, (f, t, rx) in enumerate(sc["arr"])],
+                    "out": [convert_record(r, hex2idx, ts2tick) for r in (reply or {}).get("records", [])]})
+        return evs
     outs = reply.get("out", []) if reply else []
     n_arr = len(sc["arr"])
     k = sc.get("burst", 0)
@@ -167,13 +174,14 @@ def run_driver(scenarios, procs):
 def validate_scenarios(run, scenarios, replies, procs, name="trace"):
     """Trace validation, sharded on scenario boundaries.  Returns {scenario index: stage}."""
     per = [events_of(sc, rp) for sc, rp in zip(scenarios, replies)]
-    total = sum(len(e) for e in per)
+    weight = [len(e) + sum(len(ev.get("arr", ())) for ev in e) for e in per]     # file/burst events carry many arrivals
+    total = sum(weight)
     nshards = 1 if total < 2000 else procs * (total // (procs * 300000) + 1)
     target = total / nshards
     shards, cur, cur_n = [], [], 0
     for i, evs in enumerate(per):
         cur.append(i)
-        cur_n += len(evs)
+        cur_n += weight[i]
         if cur_n >= target and len(shards) < nshards - 1:
             shards.append(cur)
             cur, cur_n = [], 0
@@ -211,6 +219,68 @@ def validate_scenarios(run, scenarios, replies, procs, name="trace"):
     return rejected, n_events
 
 
+# ------------------------------------------------------------------- decode1090 segment
+
+def jsonl_of(sc):
+    """The history as decode1090's input file: one reception per line, timestamps and serials
+    exactly as the jet1090 driver gets them."""
+    rq = request_of(sc)
+    return "".join(json.dumps({"timestamp": a["ts"], "frame": a["frame"],
+                               "metadata": [{"system_timestamp": a["ts"], "serial": a["id"]}]}) + "\n"
+                   for a in rq["arrivals"])
+
+
+def run_decode1090(run, scenarios, jobs):
+    """One process per history: decode1090 --input f.jsonl --deduplication W; output lines parsed
+    into records (frame, timestamp, metadata[].serial) in output order."""
+    exe = core.build_decode1090()
+    d = os.path.join(run.work, "decode1090")
+    os.makedirs(d, exist_ok=True)
+
+    def one(i):
+        sc = scenarios[i]
+        path = os.path.join(d, f"{os.getpid()}_{id(scenarios)}_{i}.jsonl")
+        with open(path, "w") as f:
+            f.write(jsonl_of(sc))
+        try:
+            p = subprocess.run([exe, "--input", path, "--deduplication", str(sc["w"])], stdout=subprocess.PIPE,
+                               stderr=subprocess.PIPE, text=True, timeout=300)
+            rc, out, err = p.returncode, p.stdout, p.stderr
+        except subprocess.TimeoutExpired:
+            rc, out, err = -9, "", "timeout"
+        os.unlink(path)
+        recs, garbled = [], False
+        for ln in out.splitlines():
+            try:
+                o = json.loads(ln)
+                recs.append({"frame": o["frame"], "ts": o["timestamp"], "ids": [m["serial"] for m in o["metadata"]]})
+            except Exception:
+                garbled = True
+        return {"records": recs, "rc": rc, "stderr": err[-400:], "panic": rc != 0 or garbled}
+
+    with cf.ThreadPoolExecutor(max_workers=jobs) as ex:
+        return list(ex.map(one, range(len(scenarios))))
+
+
+def process_decode1090(run, scenarios, jobs, procs, d10, name):
+    t0 = time.time()
+    tool = [dict(sc, tool="decode1090", tag=sc["tag"] + ":decode1090") for sc in scenarios]
+    replies = run_decode1090(run, tool, jobs)
+    t1 = time.time()
+    rejected, n_events = validate_scenarios(run, tool, replies, procs, name=name + ".d1090")
+    report_rejections(run, tool, replies, rejected)
+    d10["runs"] += len(tool)
+    d10["receptions_fed"] += sum(len(sc["arr"]) for sc in tool)
+    d10["records_emitted"] += sum(len(rp["records"]) for rp in replies)
+    d10["records_merging_several_receptions"] += sum(1 for rp in replies for r in rp["records"] if len(r["ids"]) > 1)
+    d10["nonzero_exit_or_garbled_output"] += sum(1 for rp in replies if rp["panic"])
+    d10["validated"] += len(tool) - len(rejected)
+    d10["rejected"] += len(rejected)
+    core.log(f"{name} decode1090: {len(tool)} runs in {t1 - t0:.1f}s, validated in {time.time() - t1:.1f}s, "
+             f"{len(rejected)} rejected")
+    return replies
+
+
 def monotone(sc):
     a = sc["arr"]
     return all(a[i][1] <= a[i + 1][1] for i in range(len(a) - 1))
@@ -218,6 +288,16 @@ def monotone(sc):
 
 def replay_case(sc, reply, stage):
     req = request_of(sc)
+    if sc.get("tool") == "decode1090":
+        return {"tag": sc["tag"], "tool": "decode1090", "w_ms": sc["w"], "epoch_s": sc["epoch"], "rejected_at": stage,
+                "command": f"decode1090 --input <file> --deduplication {sc['w']}",
+                "input_jsonl": jsonl_of(sc).splitlines(),
+                "tool_output_records[frame,ts,serials]": (reply or {}).get("records"),
+                "exit_code": (reply or {}).get("rc"), "stderr_tail": (reply or {}).get("stderr"),
+                "spec_allows": "every decodable reception in exactly one record; records = the groups of the window rule "
+                               "(Dedup!RefGroups, all flushed at exit), PropShape, PropMono",
+                "scenario": {"tag": sc["tag"], "tool": "decode1090", "w": sc["w"], "epoch": sc["epoch"],
+                             "arr": [list(a) for a in sc["arr"]]}}
     return {"tag": sc["tag"], "w_ms": sc["w"], "epoch_s": sc["epoch"], "rejected_at": stage,
             "arrivals": [{"frame": a["frame"], "ts": a["ts"], "tick_1_8ms": t, "reception": i + 1, "receiver": rx}
                          for i, (a, (f, t, rx)) in enumerate(zip(req["arrivals"], sc["arr"]))],
@@ -237,6 +317,8 @@ def report_rejections(run, scenarios, replies, rejected):
         sc = scenarios[i]
         sig = {"judge": rejected[i], "monotone": monotone(sc),
                "crash": replies[i] is None or bool(replies[i].get("panic"))}
+        if sc.get("tool"):
+            sig["tool"] = sc["tool"]
         run.report(sig, replay_case(sc, replies[i], rejected[i]))
 
 
@@ -307,10 +389,10 @@ def process(run, scenarios, procs, stats, name, meanwhile=None):
     t0 = time.time()
     replies = run_driver(scenarios, procs)
     t1 = time.time()
-    with cf.ThreadPoolExecutor(max_workers=1) as side:
-        fut = side.submit(meanwhile, replies) if meanwhile else None
+    with cf.ThreadPoolExecutor(max_workers=4) as side:
+        futs = [side.submit(fn, replies) for fn in (meanwhile or [])]
         rejected, n_events = validate_scenarios(run, scenarios, replies, procs, name=name)
-        if fut:
+        for fut in futs:
             fut.result()
     core.log(f"{name}: {len(scenarios)} scenarios replayed in {t1 - t0:.1f}s, {n_events} events validated "
              f"(+ side replays) in {time.time() - t1:.1f}s, {len(rejected)} rejected")
@@ -481,12 +563,25 @@ def check(run):
         qb = {"replays": 0, "same_records_as_validated_recording": 0, "validated_separately": 0, "rejected": 0}
         nb = len(longs)
 
-        def special_side(rp):
+        d10 = {"runs": 0, "receptions_fed": 0, "records_emitted": 0, "records_merging_several_receptions": 0,
+               "nonzero_exit_or_garbled_output": 0, "validated": 0, "rejected": 0, "short_histories": 0,
+               "long_burst_attack_histories": len(special)}
+        jobs = 8 if thorough else 6
+        rng = random.Random(run.seed)
+        n_short_total = sum(sum(1 for ln in gen_out[c].out.splitlines() if ln.startswith('"{')) for c in fam)
+        rate = (40000 if thorough else 3000) / max(1, n_short_total)
+
+        def special_tool(rp):
+            process_decode1090(run, special, jobs, procs, d10, "special")
+
+        def special_caps(rp):
             process_capped(run, special, rp, [2], procs, bp, "special")
             process_capped(run, special[nb:nb + len(bursts)], rp[nb:nb + len(bursts)], [1, 4], procs, bp, "burst")
+
+        def special_bursts(rp):
             process_burst(run, special, rp, [3, 8, 64, 0], procs, qb, "special")
 
-        rp = process(run, special, procs, stats, "special", meanwhile=special_side)
+        rp = process(run, special, procs, stats, "special", meanwhile=[special_tool, special_caps, special_bursts])
         if bp["arrivals_closing_ge_3cap_groups"] < 10:
             raise core.ToolError("back-pressure scenarios lost their teeth: no arrival closes >= 3*cap groups")
         samples.append({"tag": special[0]["tag"], "w_ms": special[0]["w"], "epoch_s": special[0]["epoch"],
@@ -503,12 +598,18 @@ def check(run):
             for b0 in range(0, len(lines), BATCH):
                 batch = [scenario(json.loads(json.loads(ln)), "exhaustive:" + c, must_be_exact=True)
                          for ln in lines[b0:b0 + BATCH]]
+                def tool_side(rp, batch=batch, c=c, b0=b0):
+                    pick = [sc for sc in batch if (thorough and len(sc["arr"]) <= 3) or rng.random() < rate]
+                    if pick:
+                        d10["short_histories"] += len(pick)
+                        process_decode1090(run, pick, jobs, procs, d10, f"{c}.{b0 // BATCH}")
+
                 def side(rp, batch=batch, c=c, b0=b0):
                     if c.endswith("_b"):
                         process_capped(run, batch, rp, [1], procs, bp, c)
                     process_burst(run, batch, rp, [0], procs, qb, f"{c}.{b0 // BATCH}")
 
-                rp = process(run, batch, procs, stats, f"{c}.{b0 // BATCH}", meanwhile=side)
+                rp = process(run, batch, procs, stats, f"{c}.{b0 // BATCH}", meanwhile=[side, tool_side])
                 if b0 == 0:
                     k = len(batch) * 2 // 3
                     samples.append({"tag": batch[k]["tag"], "w_ms": batch[k]["w"],
@@ -541,6 +642,13 @@ def check(run):
         "binding_self_test": selftest,
         "back_pressure": bp,
         "queued_bursts": qb,
+        "decode1090": dict(d10, reading="decode1090 (its own copy of the loop, crates/decode1090/src/main.rs) reads a finite "
+                           "file and exits, so every window has closed at exit: every decodable reception must be in exactly "
+                           "one output record and the records must be exactly the groups of the window rule (flush required); "
+                           "only the final output order is observable, judged by PropShape/PropConservation/"
+                           "PropWindowAtExit/PropMono",
+                           selection="all long/burst/attack histories; short histories: seeded sample (quick), all of "
+                                     "length <= 3 plus a seeded sample (thorough)"),
         "exhaustive": False,
         "exhaustive_parts": "spec: all histories <= the MC bounds with all tie orders and an optional flush at close; "
                             "code: all histories of Gen_Dedup_*.cfg (receiver pattern fixed beyond the FullRx bound)",
@@ -556,6 +664,8 @@ def check(run):
         "an implementation that flushes them as complete groups is accepted as well)",
         "frames declared decodable are DF17 frames from the repository's tests or built with the Mode S parity; undecodable "
         "ones have a flipped parity bit or are truncated; the emitted record's decoded payload is not judged here",
+        "decode1090 is run unmodified, one process per history, input in the current JSONL format (metadata with serial); "
+        "the old top-level 'rssi' input format is not exercised",
         "queued-burst replays (3, 8, 64 or all arrivals enqueued before the dedup task runs): queued receptions keep their "
         "own timestamps, so the output must equal one-at-a-time processing; a burst recording whose records are the "
         "concatenation of the validated per-arrival recording shares its verdict, any other is judged by Trace_Dedup!BurstEv",
@@ -579,11 +689,17 @@ def replay(run, path):
     scenarios = []
     for case in rep.get("cases", []):
         s = case["scenario"]
-        scenarios.append({"tag": s["tag"], "w": s["w"], "epoch": s["epoch"], "cap": s.get("cap", 0), "burst": s.get("burst", 0),
+        scenarios.append({"tag": s["tag"], "w": s["w"], "epoch": s["epoch"], "cap": s.get("cap", 0), "burst": s.get("burst", 0), "tool": s.get("tool", ""),
                           "arr": [tuple(a) for a in s["arr"]]})
     if not scenarios:
         raise core.ToolError("replay file has no cases")
-    replies = run_driver(scenarios, 1)
+    replies = [None] * len(scenarios)
+    jet = [i for i, sc in enumerate(scenarios) if sc.get("tool") != "decode1090"]
+    d10 = [i for i, sc in enumerate(scenarios) if sc.get("tool") == "decode1090"]
+    for i, rp in zip(jet, run_driver([scenarios[i] for i in jet], 1) if jet else []):
+        replies[i] = rp
+    for i, rp in zip(d10, run_decode1090(run, [scenarios[i] for i in d10], 1) if d10 else []):
+        replies[i] = rp
     rejected, n_events = validate_scenarios(run, scenarios, replies, 1, name="replay")
     report_rejections(run, scenarios, replies, rejected)
     run.cov.update({"evaluations": len(scenarios), "distinct_nontrivial": len(scenarios),
